@@ -837,6 +837,160 @@ def _build_record(layout: dict, score, ref, pred):
     return build(())
 
 
+_MRI = []
+
+
+def matcher_run_interp():
+    """Interpreter for bounded runs of a matcher: the candidate generator hands out the scenario's records,
+    threshold tests and comparisons of two scores are decisions named after the scores involved, the metric
+    applied to a merged prediction is a score named after the reference and the merged prediction labels."""
+    if _MRI:
+        return _MRI[0]
+    from .resultrun import ResultInterp
+
+    class MatcherRunInterp(ResultInterp):
+        def external_call(self, name, args, kwargs, node):
+            if name == self.root.gen.qual:
+                return list(self.root.records)
+            if name in ("numpy.all", "numpy.any") and len(args) == 1 and isinstance(args[0], (list, tuple)) and all(isinstance(x, bool) for x in args[0]):
+                return all(args[0]) if name.endswith("all") else any(args[0])
+            return super().external_call(name, args, kwargs, node)
+
+        def call_func(self, f_, args, kwargs, node, self_obj=None):
+            if f_.cls is not None and f_.cls.name in ("Metric", "_Metric"):
+                if f_.name == "score_beats_threshold":
+                    sc = args[0] if args else next(iter(kwargs.values()), None)
+                    if isinstance(sc, Sym) and sc.name.startswith("score"):
+                        return self.root.beats.setdefault(sc.name, Unknown("beats:" + sc.name))
+                if f_.name == "__call__":
+                    b = dict(zip([p.name for p in f_.call_params], args))
+                    b.update(kwargs)
+                    ri = next((v for k, v in b.items() if "ref" in k.lower() and ("idx" in k.lower() or "label" in k.lower())), None)
+                    pi = next((v for k, v in b.items() if "pred" in k.lower() and ("idx" in k.lower() or "label" in k.lower())), None)
+                    if isinstance(ri, int) and isinstance(pi, (list, tuple, int)):
+                        ps = sorted(pi) if isinstance(pi, (list, tuple)) else [pi]
+                        return Sym(f"comb[{ri}|{','.join(str(x) for x in ps)}]")
+            return super().call_func(f_, args, kwargs, node, self_obj=self_obj)
+
+        def compare_hook(self, op, l, r, node):
+            if isinstance(l, Sym) and isinstance(r, Sym) and all(x.name.startswith(("score", "comb[")) for x in (l, r)) and isinstance(op, (ast.Lt, ast.LtE, ast.Gt, ast.GtE)):
+                key = (l.name, type(op).__name__, r.name)
+                return self.root.cmps.setdefault(key, Unknown("cmp:" + "\t".join(key)))
+            return super().compare_hook(op, l, r, node)
+
+    _MRI.append(MatcherRunInterp)
+    return MatcherRunInterp
+
+
+def merge_run(ctx: Ctx, cls, f):
+    """The merging matcher run on every ordering of four candidates (three predictions on one reference,
+    one of them also on a second reference), every outcome of its threshold tests and score comparisons,
+    and both metric directions.  Replayed against the specification with the same outcomes: an unmatched
+    reference takes a free prediction that meets the threshold; a matched reference takes a further free
+    prediction iff the score of the merged prediction (the metric applied to exactly the predictions
+    matched so far plus the new one) is strictly better than the score recorded for it, which then
+    becomes the recorded score.  Returns (verdict, witness, runs)."""
+    from fractions import Fraction
+    from itertools import permutations
+
+    from .common import candidate_layout
+    from .resultrun import ResultInterp
+
+    prog = ctx.prog
+    gen = prog.func("_functionals:_calc_matching_metric_of_overlapping_labels")
+    pcls = prog.cls("utils.processing_pair:UnmatchedInstancePair")
+    init = cls.lookup("__init__")
+    api = labelmap_api(prog)
+    layout = candidate_layout(prog)
+    names = [p.name for p in init.call_params] if init is not None else []
+    tp = next((x for x in names if "thr" in x.lower()), None)
+    mp = next((x for x in names if "metric" in x.lower()), None)
+    pairs = [(1, 1), (1, 2), (1, 3), (2, 3)]  # (reference label, prediction label)
+    runs = 0
+    for dec in (False, True):
+        mv, me = make_metric_objs(prog, dec)
+        matcher = Obj(cls, {})
+        if init is not None:
+            a = {}
+            if tp:
+                a[tp] = Fraction(1, 2)
+            if mp:
+                a[mp] = me
+            o0 = ResultInterp(prog, init, a, self_obj=matcher, metrics=[me]).run()
+            if o0.kind == "raise" or o0.decisions:
+                return None, {"why": f"constructor not evaluable: {o0.kind} {o0.exc}"}, runs
+        for order in permutations(range(4)):
+            records = [_build_record(layout, Sym(f"score{i}"), pairs[i][0], pairs[i][1]) for i in order]
+
+            def make(prefix, records=records):
+                pair = Obj(pcls, {"_prediction_arr": Sym("PRED_ARR"), "_reference_arr": Sym("REF_ARR"), "_ref_labels": (1, 2), "_pred_labels": (1, 2, 3), "n_dim": 3, "n_prediction_instance": 3, "n_reference_instance": 2})
+                params = [p.name for p in f.call_params]
+                it = matcher_run_interp()(prog, f, {**({params[0]: pair} if params else {}), f.self_name: matcher}, metrics=[me], prefix=prefix)
+                it.root.no_inline = {gen.qual}
+                it.root.gen = gen
+                it.root.records = records
+                it.root.beats = {}
+                it.root.cmps = {}
+                return it
+
+            outs = enumerate_paths(make, max_paths=256)
+            for out in outs:
+                runs += 1
+                beats, cmps, other = {}, {}, []
+                for nd, v, d in out.decisions:
+                    tag = str(getattr(v, "tag", ""))
+                    if isinstance(v, Unknown) and tag.startswith("beats:score"):
+                        beats[int(tag[11:])] = d
+                    elif isinstance(v, Unknown) and tag.startswith("cmp:"):
+                        cmps[tuple(tag[4:].split("\t"))] = d
+                    else:
+                        other.append(norm(nd) if isinstance(nd, ast.AST) else str(v))
+                scen = {"order": [pairs[i] for i in order], "lower_is_better": dec, "meets_threshold": {f"score{k}": v for k, v in beats.items()}, "comparisons": {" ".join(k): v for k, v in cmps.items()}}
+                if other:
+                    return None, {"why": f"matcher splits on {other[:3]}", **scen}, runs
+                if out.kind != "return" or not isinstance(out.value, Obj):
+                    return False, {"outcome": f"{out.kind} {out.exc or ''}".strip(), **scen}, runs
+                got = out.value.attrs.get(api["dict_attr"])
+                if not isinstance(got, dict):
+                    return None, {"why": f"label map state not readable ({api['dict_attr']})", **scen}, runs
+                want, members, rec = {}, {}, {}
+                for i in order:
+                    r, p_ = pairs[i]
+                    if p_ in want:
+                        continue
+                    if r in members:
+                        comb = f"comb[{r}|{','.join(str(x) for x in sorted(members[r] + [p_]))}]"
+                        better = None
+                        for (l_, o_, r_), d in cmps.items():
+                            if {l_, r_} != {comb, rec[r]}:
+                                continue
+                            # "comb is strictly better than rec" in the metric's direction
+                            strict_better = ("Lt" if dec else "Gt") if l_ == comb else ("Gt" if dec else "Lt")
+                            not_better = ("GtE" if dec else "LtE") if l_ == comb else ("LtE" if dec else "GtE")
+                            if o_ == strict_better:
+                                better = d
+                            elif o_ == not_better:
+                                better = not d
+                            else:
+                                return False, {"why": f"merged score {comb} and recorded score {rec[r]} are compared with {o_}: not a test for a strict improvement in the metric's direction", **scen}, runs
+                        if better is None:
+                            return False, {"why": f"prediction {p_} on matched reference {r}: the score of the merged prediction {comb} was not compared with the recorded score {rec[r]}", **scen}, runs
+                        if better:
+                            want[p_] = r
+                            members[r].append(p_)
+                            rec[r] = comb
+                    else:
+                        if i not in beats:
+                            return False, {"why": f"free prediction {p_} on unmatched reference {r}: threshold test not made", **scen}, runs
+                        if beats[i]:
+                            want[p_] = r
+                            members[r] = [p_]
+                            rec[r] = f"score{i}"
+                if dict(got) != want:
+                    return False, {"got": {str(k): v for k, v in got.items()}, "specified": {str(k): v for k, v in want.items()}, **scen}, runs
+    return True, None, runs
+
+
 def greedy_run(ctx: Ctx, cls, f):
     """The threshold matcher run on every ordering of the four candidates over two reference and two
     prediction labels, for every outcome of the four threshold tests and both many-to-one settings
@@ -862,21 +1016,6 @@ def greedy_run(ctx: Ctx, cls, f):
     pairs = [(1, 1), (1, 2), (2, 1), (2, 2)]  # (reference label, prediction label)
     runs = 0
 
-    class GreedyInterp(ResultInterp):
-        def external_call(self, name, args, kwargs, node):
-            if name == gen.qual:
-                return list(self.root.records)
-            if name in ("numpy.all", "numpy.any") and len(args) == 1 and isinstance(args[0], (list, tuple)) and all(isinstance(x, bool) for x in args[0]):
-                return all(args[0]) if name.endswith("all") else any(args[0])
-            return super().external_call(name, args, kwargs, node)
-
-        def call_func(self, f_, args, kwargs, node, self_obj=None):
-            if f_.name == "score_beats_threshold" and f_.cls is not None and f_.cls.name in ("Metric", "_Metric"):
-                sc = args[0] if args else next(iter(kwargs.values()), None)
-                if isinstance(sc, Sym) and sc.name.startswith("score"):
-                    return self.root.beats.setdefault(sc.name, Unknown("beats:" + sc.name))
-            return super().call_func(f_, args, kwargs, node, self_obj=self_obj)
-
     for m2o in ((False, True) if op else (None,)):
         mv, me = make_metric_objs(prog, False)
         matcher = Obj(cls, {})
@@ -898,10 +1037,12 @@ def greedy_run(ctx: Ctx, cls, f):
             def make(prefix, records=records):
                 pair = Obj(pcls, {"_prediction_arr": Sym("PRED_ARR"), "_reference_arr": Sym("REF_ARR"), "_ref_labels": (1, 2), "_pred_labels": (1, 2), "n_dim": 3, "n_prediction_instance": 2, "n_reference_instance": 2})
                 params = [p.name for p in f.call_params]
-                it = GreedyInterp(prog, f, {**({params[0]: pair} if params else {}), f.self_name: matcher}, metrics=[me], prefix=prefix)
+                it = matcher_run_interp()(prog, f, {**({params[0]: pair} if params else {}), f.self_name: matcher}, metrics=[me], prefix=prefix)
                 it.root.no_inline = {gen.qual}
+                it.root.gen = gen
                 it.root.records = records
                 it.root.beats = {}
+                it.root.cmps = {}
                 its.append(it)
                 return it
 
